@@ -10,6 +10,10 @@ type PropDef struct {
 var Props = map[string]PropDef{}
 
 func mixedOpts(thorough bool) GenOpts {
+	return mixedOptsImpl(thorough)
+}
+
+func mixedOptsImpl(thorough bool) GenOpts {
 	o := GenOpts{
 		MaxNodes: 4, MaxWorkloads: 8, MaxPodsPerWL: 4,
 		Fractions: true, MIG: true, Gangs: true, SubGroups: true, Running: true, Terminating: true,
@@ -78,6 +82,10 @@ func init() {
 			return GenScript(t, "C16", "twins", o)
 		},
 		Oracles: func() []Oracle { return []Oracle{OrderOracle{}} },
+	}
+	Props["C10"] = PropDef{
+		Gen:     GenRobustnessScript,
+		Oracles: func() []Oracle { return []Oracle{RobustnessOracle{}} },
 	}
 	Props["C02"] = PropDef{
 		Gen: func(t *rapid.T, thorough bool) *Script {
